@@ -1,8 +1,10 @@
 /-
   Engine `legacy` (C14): `(iface (pub <value>) (priv <value>) …)` → merged interface; `(respell #hex)` → #hex;
-  `(gate <strict 0|1> <10|11|20|other>)` → 0|1; `(group #relationship|_ …)` → 0|1
+  `(gate <strict 0|1> <10|11|20|other>)` → 0|1; `(group #relationship|_ …)` → 0|1;
+  `(groups <fixed 0|1> (names n …) (g (r name kid …) …) (g …) …)` → `name>parent` / `name>-` for every listed name
 -/
 import Cellml.Legacy.Model
+import Cellml.Legacy.Groups
 import Cellml.Wire
 namespace Cellml.Engine.Legacy
 open Cellml.Legacy Cellml.Wire
@@ -13,6 +15,18 @@ def showIface : Iface → String
 def parseAttr : Sexp → Option (Bool × String)
   | .list [.atom "pub", .atom v] => some (true, v)
   | .list [.atom "priv", .atom v] => some (false, v)
+  | _ => none
+
+/-- nested `(r name kid …)` to a tree; the fuel bounds the nesting depth of the line -/
+def parseRefF : Nat → Sexp → Option Ref
+  | 0, _ => none
+  | f+1, .list (.atom "r" :: .atom n :: kids) => (kids.mapM (parseRefF f)).map (Ref.mk n)
+  | _, _ => none
+
+def parseRef (s : Sexp) : Option Ref := parseRefF 64 s
+
+def parseGroup : Sexp → Option (List Ref)
+  | .list (.atom "g" :: rs) => rs.mapM parseRef
   | _ => none
 
 def answer (line : String) : String :=
@@ -31,6 +45,14 @@ def answer (line : String) : String :=
         | .atom h => (fromHex (h.drop 1).toString).map fun cs => some (String.ofList cs)
         | _ => none) with
     | some l => if isEncapsulation l then "1" else "0"
+    | none => "bad-line"
+  | some (.list (.atom "groups" :: .atom f :: .list (.atom "names" :: ns) :: gs)) =>
+    match gs.mapM parseGroup with
+    | some l =>
+      let m := grun (f = "1") (docOps l)
+      " ".intercalate (ns.map fun n => match n with
+        | .atom x => x ++ ">" ++ (m x).getD "-"
+        | _ => "?")
     | none => "bad-line"
   | some (.list [.atom "gate", .atom s, .atom v]) =>
     let ver := if v = "10" then Version.v10 else if v = "11" then .v11 else if v = "20" then .v20 else .other
